@@ -470,7 +470,7 @@ impl Harness for QueueHarness {
                         let _ = <$t as SpscQ>::pop(&mut c_);
                     }
                 }
-                sim::run(cfg.to_cfg(), dec, move || body::<$t>(q, p, sh2, weak, cap))
+                sim_run(cfg.to_cfg(), dec, move || body::<$t>(q, p, sh2, weak, cap))
             }};
         }
         let report = match (kind, cap) {
